@@ -11,6 +11,19 @@ const T: [&str; 60] = [
 
 fuzz_target!(|data: &[u8]| {
     let tpl = common::decode(data, &T);
+    // excluded by construction: call nesting deeper than 6 (known finding F18 of C13: Tera's parse
+    // time grows about 4x per level, so one such input would stall the whole campaign)
+    let (mut depth, mut max) = (0i32, 0i32);
+    for c in tpl.chars() {
+        match c {
+            '(' => { depth += 1; max = max.max(depth); }
+            ')' => depth -= 1,
+            _ => {}
+        }
+    }
+    if max > 6 {
+        return;
+    }
     // C13/C15: hostile templates give an error or a value, never a panic
     let t = Template::<String>::new(tpl);
     let _ = t.render(None);
